@@ -581,7 +581,7 @@ PROPS["C07"]["modules"] += ["SkinnyVerif.Properties.C07M", "SkinnyVerif.Properti
 PROPS["C07"]["theorems"] += [P + "mantisBatched_eq", P + "C07_mantis_whole_buffer"]
 PROPS["C07"]["theorems"] += [P + "parallelBatched_eq_ecb", P + "C07_vec128_whole_buffer", P + "C07_vec256_vec64_whole_buffer", P + "batch_is_ecb", P + "ecb_append"]
 PROPS["C07"]["modules"] += ["SkinnyVerif.Properties.C07X"]
-PROPS["C07"]["theorems"] += [P + "C07X_exec_is_ecb", P + "exec_batched", P + "exec_enc4_eq", P + "exec_dec4_eq", P + "exec_enc8_eq", P + "exec_dec8_eq", P + "exec_enc8h_eq", P + "exec_dec8h_eq"]
+PROPS["C07"]["theorems"] += [P + "C07X_exec_is_ecb", P + "exec_batched", P + "exec_enc4_eq", P + "exec_dec4_eq", P + "exec_enc8_eq", P + "exec_dec8_eq", P + "exec_enc8h_eq", P + "exec_dec8h_eq", P + "C07X_mantis_exec", P + "exec_mantis8", P + "exec_batchedM"]
 _c07 = PROPS["C07"]
 thm("C08", ["C08"], ["C08_no_leak_events", "C08_table_complete"])
 thm("C09", ["C08", "C09X"], ["C09_block_functions", "C09_table_complete", "C09_vector_batch_functions", "C09_vector_table_complete", "C09_xor_blocks", "C09_xor_partial", "C09_xor_access", "C11_no_junk_in_loaders"])
